@@ -136,7 +136,7 @@ def coq_build(proj, timeout=1500):
             rc, out = run(["coq_makefile", "-f", "_CoqProject", "-o", "Makefile.coq"], cwd=d, timeout=120)
             if rc != 0:
                 return False, out
-        rc, out = run(["make", "-f", "Makefile.coq", "-j16"], cwd=d, timeout=timeout)
+        rc, out = run(["make", "-k", "-f", "Makefile.coq", "-j16"], cwd=d, timeout=timeout)  # -k: files that do not depend on a broken proof (the extraction) are still built
         return rc == 0, out
 
 
@@ -417,6 +417,7 @@ def _proof_coverage(res, proj, prop_file):
         "checker_cmd": "make -C coq/%s -f Makefile.coq -j16 && coqc <_CoqProject args> theories/Props/%s.v (Print Assumptions parsed)" % (proj, prop_file),
         "trusted_base": list(TRUSTED_BASE_COMMON) + ["axioms reported by Print Assumptions: %s" % (", ".join(res["axioms"]) or "none (closed under the global context)")],
         "theorems": res["theorems"],
+        **({"source_tie": res["source_tie"]} if "source_tie" in res else {}),
     }
 
 
